@@ -42,6 +42,7 @@ class Report(object):
         self.tier = tier
         self.obligations = []
         self.notes = []
+        self.insensitive = []
         self.not_evaluated = []    # white-box rules whose internal anchors do not exist in this tree: {rules, reason, decided_by}
         self.floors = []   # (rule, expected minimum, seen)
         self.analysed = {}
@@ -77,6 +78,12 @@ class Report(object):
             seen = sum(1 for o in self.obligations if o.rule == rule)
         self.floors.append((rule, expected, seen))
 
+    def sensitive(self, ok, message):
+        """A probe-based rule must have exercised the behaviour it judges (names renamed, aliases created, outputs shortened ...). Checked at the
+        end of the run like a floor: with violations reported the violations are the verdict, otherwise an insensitive run is no verdict (exit 2)."""
+        if not ok:
+            self.insensitive.append(message)
+
     def optional(self, rules, decided_by, fn):
         """Run a white-box rule. If the internal names it is written against are gone (LostAnchor) the rule is reported as not evaluated - the
         behaviour it sharpens is decided by the end-to-end rules `decided_by`, which must have run - instead of failing the whole check."""
@@ -94,6 +101,8 @@ class Report(object):
         run already reports violations, which then are the verdict."""
         if self.violations():
             return
+        if self.insensitive:
+            raise AnalysisError(self.insensitive[0])
         skipped = {r for ne in self.not_evaluated for r in ne['rules']}
         for ne in self.not_evaluated:
             for r in ne['decided_by']:
